@@ -455,6 +455,13 @@ def r8_6(ctx, rc):
             rc.ok({'order': key}, key=key)
 
 
+def r8_7(ctx, rc):
+    """A reused record registers everything nested in it (R1.5: copy of
+    the suboperations before the registration, apply before register)."""
+    from .c01 import r1_5
+    r1_5(ctx, rc)
+
+
 RULES = [
     ('R8.1', 'lockset on the claim maps', r8_1),
     ('R8.2', 'check-and-claim is one critical section', r8_2),
@@ -464,4 +471,5 @@ RULES = [
     ('R8.4', 'replay refuses keys already taken', r8_4),
     ('R8.5', 'setup failures are never registered or reused', r8_5),
     ('R8.6', 'claim precedes destruction of the own path', r8_6),
+    ('R8.7', 'a reused record registers everything nested in it', r8_7),
 ]
